@@ -184,6 +184,43 @@ fn build(c: &mut Ctx, which: u64, m: &Model) -> Result<PersistentState, String> 
             insert_all(&mut st, &mut c.loader, &items)?;
             Ok(st.freeze(&mut c.loader, &mut EmptyCollector))
         }
+        7 => {
+            c.log.push("history H: contents with some wrong values, freeze, (persist), thaw, values corrected through entry handles (get_entry + set), checkpoint, read in the new generation, freeze it".into());
+            let mut st = MutableState::initial_state();
+            let items = shuffled(c.r, m);
+            let nwrong = (1 + c.r.below(3) as usize).min(items.len());
+            let mut first = items.clone();
+            for it in first.iter_mut().take(nwrong) {
+                it.1 = if c.r.chance(1, 2) { vec![0xdd; 70] } else { vec![0xdd; 3] };
+            }
+            insert_all(&mut st, &mut c.loader, &first)?;
+            let mut p = st.freeze(&mut c.loader, &mut EmptyCollector);
+            if c.r.chance(1, 2) {
+                c.log.push("  persist: store_update + reload".into());
+                let reference = p.store_update(&mut c.store).map_err(|e| format!("store_update: {:?}", e))?;
+                c.loader = Loader::new(c.store.clone());
+                p = PersistentState::load_from_location(&mut c.loader, reference).map_err(|e| format!("load: {:?}", e))?;
+            }
+            let mut st = p.thaw();
+            {
+                let inner = st.get_inner(&mut c.loader);
+                let mut t = inner.lock();
+                for (k, v) in items.iter().take(nwrong) {
+                    let e = t.get_entry(&mut c.loader, k).ok_or_else(|| "history H: key missing after thaw".to_string())?;
+                    t.set(e, v.clone()).ok_or_else(|| "history H: set through a fresh entry handle refused".to_string())?;
+                }
+            }
+            let mut child = st.make_fresh_generation(&mut c.loader);
+            if c.r.chance(3, 4) {
+                // visiting the keys in the new generation copies their nodes into it
+                let inner = child.get_inner(&mut c.loader);
+                let mut t = inner.lock();
+                for (k, _) in items.iter() {
+                    let _ = t.get_entry(&mut c.loader, k);
+                }
+            }
+            Ok(child.freeze(&mut c.loader, &mut EmptyCollector))
+        }
         _ => {
             c.log.push("history E: build part, freeze, persist, thaw, finish, freeze".into());
             let mut st = MutableState::initial_state();
@@ -450,7 +487,7 @@ pub fn run(ctx: &ChildCtx, sh: &mut Shard) {
         let mut c = Ctx { r: &mut r, store: vec![], loader: Loader::new(vec![]), log: vec![] };
         let res = vmon_core::catch(|| -> Result<(), String> {
             let mut last = None;
-            let hists: Vec<u64> = if miri { vec![1, 4, 6] } else { vec![0, 1, 2, 3, 4, 5, 6] };
+            let hists: Vec<u64> = if miri { vec![1, 4, 6, 7] } else { vec![0, 1, 2, 3, 4, 5, 6, 7] };
             for which in hists {
                 let p = build(&mut c, which, &m)?;
                 sh.evaluations += 1;
